@@ -150,6 +150,8 @@ def configs(tier, seed):
         for xy in XY:
             for pl in PLACE:
                 out.append({"kind": "ill", "tight": ti, "xy": list(xy), "place": pl})
+    for i in range(len(ALIAS_LS)):
+        out.append({"kind": "alias", "i": i})
     for ls in ORDER_LS:
         for pos in range(4):
             for perm in range(6):
@@ -184,7 +186,17 @@ def configs(tier, seed):
 BASIS_LADDER = [(0, 2, 2), (1, 1, 1), (2, 2, 1), (1, 2, 2), (3, 1, 1), (0, 1, 1)]
 
 
+ALIAS_LS = [(0, 1, 2, 1), (1, 0, 0, 2), (2, 2, 1, 0), (0, 0, 1, 1), (1, 2, 0, 3), (3, 1, 1, 0)]
+
+
 def build(cfg):
+    from .. import core
+
+    core.ALIAS_POOL = {} if cfg["kind"] == "alias" else None
+    if cfg["kind"] == "alias":
+        # four shells of different angular momentum built on the same exponent and coefficient array objects
+        cs = centres("general" if cfg["i"] % 2 else "coincident")
+        return [RefShell(l, cs[i], (0.45, 2.6), [[0.7, -0.2], [0.4, 0.9]], "cartesian") for i, l in enumerate(ALIAS_LS[cfg["i"]])]
     if cfg["kind"] == "ill":
         return ill_shells(cfg["tight"], cfg["xy"], cfg["place"])
     if cfg["kind"] == "order":
@@ -225,7 +237,7 @@ def evaluate(cfg):
     o = Obs(cfg)
     shells = build(cfg)
     g = [gshell(s) for s in shells]
-    if cfg["kind"] in ("ill", "quartet", "order"):
+    if cfg["kind"] in ("ill", "quartet", "order", "alias"):
         blk = ElectronRepulsionIntegral.construct_array_contraction(*g)
         o.call()
         n = [x.norm_cont for x in g]
@@ -233,7 +245,7 @@ def evaluate(cfg):
                * n[2][None, None, None, None, :, :, None, None] * n[3][None, None, None, None, None, None, :, :])
         ref = coulomb.eri_block(*shells, cart8=True)
         sc = schwarz4(*shells)
-        key = {"ill": "eri-block-ill", "order": "eri-block-primitive-order"}.get(cfg["kind"], "eri-block")
+        key = {"ill": "eri-block-ill", "order": "eri-block-primitive-order", "alias": "eri-block-shared-arrays"}.get(cfg["kind"], "eri-block")
         o.cmp("construct_array_contraction (ab|cd)", blk, ref, TOL, sc, key=key, floor=1e-250)
     else:
         ref = coulomb.eri_tensor(shells)
